@@ -147,7 +147,9 @@ const RUNTIME = `(function () {
   }
   // all own keys with descriptors plus the class of the prototype
   function shape(o) {
-    const ents = Reflect.ownKeys(o).map(key => fmtKey(key) + '=' + od(o, key));
+    // (length / name / prototype of a class are not part of the observation: function names are not compared)
+    const skip = typeof o === 'function' ? ['length', 'name', 'prototype'] : [];
+    const ents = Reflect.ownKeys(o).filter(key => !skip.includes(key)).map(key => fmtKey(key) + '=' + od(o, key));
     const pr = Object.getPrototypeOf(o);
     const pn = pr === Object.prototype ? 'Object' : pr === null ? 'null' : pr === Function.prototype ? 'Function' : info.has(pr) ? fmt(pr) : 'other';
     return '<' + pn + '|' + ents.join(',') + '>';
@@ -261,7 +263,7 @@ const RUNTIME = `(function () {
   }
   const pr = v => Promise.resolve(v);
   let registered = null;
-  Object.assign(globalThis, { p, k, idt, h, ai, si, pr, od, shape, rd, timing, __run(fn) { registered = fn; } });
+  Object.assign(globalThis, { p, k, idt, h, ai, si, pr, od, shape, rd, timing, fmtv: v => fmt(v, 1), __run(fn) { registered = fn; } });
   return {
     take() { const f = registered; registered = null; return f; },
     begin(env) { LOG = []; ENV = env; CACHE = new Map(); return [mkObj('this'), mkObj('arg0')]; },
@@ -338,7 +340,7 @@ async function runProgram(pg) {
       if (nat) {
         if (!same(nat, low)) {
           res.nMismatch++;
-          if (res.mismatches.length < 3) res.mismatches.push({ variant: v.key, env: pg.envs[j], native: nat, lowered: low,
+          if (res.mismatches.length < 200) res.mismatches.push({ variant: v.key, env: pg.envs[j], native: nat, lowered: low,
                                                                specAgreesWithNative: predicted ? same(spec, nat) : null });
         }
       } else if (predicted) {
